@@ -815,6 +815,11 @@ fn reg_alloc_req(tid: usize, sh: &Shared, m: Meta4, kind: &'static str, pat: u8,
     for l in e.live.clone() {
       if cap > 0 && l.m.1 > 0 && off < l.m.0 + l.m.1 && l.m.0 < off + cap {
         e.viol.push(V { class: "overlap".into(), sig: format!("overlap:{}-vs-{}", kind, l.kind), msg: format!("thread {} got [{},{}) ({}) overlapping live [{},{}) ({}) of thread {}", tid, off, off + cap, kind, l.m.0, l.m.0 + l.m.1, l.kind, l.tid) });
+        if matches!(kind, "bytes" | "owned-bytes") && !e.draining {
+          // C08: the owner of the other handle is a running thread (a worker, or the thread that started them) and may
+          // write its own bytes at any moment, in particular between the arena's zeroing and the return of this call
+          e.viol.push(V { class: "not-zeroed".into(), sig: "not-zeroed:shared-with-a-live-handle".into(), msg: format!("thread {} got [{},{}) from alloc_bytes while [{},{}) is a live handle of thread {}: whatever that owner writes there between the zeroing and the return is what the new owner reads", tid, off, off + cap, l.m.0, l.m.0 + l.m.1, l.tid) });
+        }
       }
     }
     if cap > 0 && (off < sh.dof || off + cap > allocated || off + cap > e.rg.cap) {
